@@ -44,63 +44,119 @@ func ruleGroupSpawn(c *Ctx, r *R) {
 		r.undecided("xsync.Group.spawn|missing", token.NoPos, "anchor not found")
 		return
 	}
-	held := locksIn(sp, lockset{})
-	var add *ssa.Call
-	instrs(sp, func(b *ssa.BasicBlock, i int, in ssa.Instruction) {
-		if call, ok := in.(*ssa.Call); ok {
-			if cal := call.Call.StaticCallee(); cal != nil && fname(cal) == "Add" && cal.Signature.Recv() != nil && isNamedType(cal.Signature.Recv().Type(), "sync", "WaitGroup") {
-				add = call
+	// Typestate over spawn and the in-package helpers it is built from (stopped(), register(), …):
+	//   LCK  g.m is held (R or W)              ERRL the last g.ctx.Err() was evaluated during the current hold
+	//   CHK  g.ctx.Err() == nil is established and g.m was not released since        ADD  wg.Add(1) ran
+	const (
+		gLCK = 1 << iota
+		gERRL
+		gCHK
+		gADD
+	)
+	muFields := fieldsOfKind(c, "xsync", "Group", func(t types.Type) bool {
+		return isNamedType(t, "sync", "RWMutex") || isNamedType(t, "sync", "Mutex")
+	})
+	isGroupMu := func(m string) bool {
+		for _, f := range muFields {
+			if strings.HasSuffix(m, "."+f) {
+				return true
 			}
 		}
-	})
+		return false
+	}
+	isCtxErr := func(v ssa.Value) bool {
+		ec, ok := v.(*ssa.Call)
+		return ok && ec.Call.IsInvoke() && ec.Call.Method.Name() == "Err" && isContextType(ec.Call.Value.Type()) && len(valueProv(ec.Call.Value, provEnv{}).fields) >= 1
+	}
+	isAdd := func(in ssa.Instruction) *ssa.Call {
+		if call, ok := in.(*ssa.Call); ok {
+			if cal := call.Call.StaticCallee(); cal != nil && cal.Name() == "Add" && cal.Signature.Recv() != nil && isNamedType(cal.Signature.Recv().Type(), "sync", "WaitGroup") {
+				return call
+			}
+		}
+		return nil
+	}
+	pkg := sp.Pkg
+	spf := &PF{N: 16, DeepVisit: true, InScope: func(f *ssa.Function) bool { return rootFn(f).Pkg == pkg && f.Blocks != nil && f != sp && f.Parent() == nil }}
+	spf.Instr = func(f *ssa.Function, in ssa.Instruction, q int) (StateSet, bool) {
+		var cc *ssa.CallCommon
+		switch x := in.(type) {
+		case *ssa.Call:
+			cc = &x.Call
+			if isCtxErr(x) {
+				if q&gLCK != 0 {
+					return ss(q | gERRL), true
+				}
+				return ss(q &^ gERRL), true
+			}
+			if isAdd(x) != nil {
+				return ss(q | gADD), true
+			}
+		case deferredCall:
+			cc = &x.Defer.Call
+		}
+		if cc != nil {
+			if m, op := lockEvent(cc); m != "" && isGroupMu(m) {
+				switch op {
+				case "Lock", "RLock":
+					return ss(q | gLCK), true
+				default:
+					return ss(q &^ (gLCK | gERRL | gCHK)), true
+				}
+			}
+		}
+		return 0, false
+	}
+	spf.Edge = func(f *ssa.Function, g guard, q int) (StateSet, bool) {
+		cf, ok := g.asCmp()
+		if !ok || cf.op != token.EQL {
+			return 0, false
+		}
+		x, y := cf.x, cf.y
+		if isNilConst(x) {
+			x, y = y, x
+		}
+		if isNilConst(y) && isCtxErr(x) && q&gERRL != 0 && q&gLCK != 0 {
+			return ss(q | gCHK), true
+		}
+		return 0, false
+	}
+	var add *ssa.Call
+	var goIn *ssa.Go
+	addOK, chkOK, goOK, nAdd := true, true, true, 0
+	spf.Visit = func(f *ssa.Function, in ssa.Instruction, st StateSet) {
+		if a := isAdd(in); a != nil {
+			add = a
+			nAdd++
+			if !isConstInt(a.Call.Args[1], 1) {
+				addOK = false
+			}
+			st.each(func(q int) {
+				if q&gLCK == 0 {
+					addOK = false
+				}
+				if q&gCHK == 0 {
+					chkOK = false
+				}
+			})
+		}
+		if g, ok := in.(*ssa.Go); ok && f == sp {
+			goIn = g
+			st.each(func(q int) {
+				if q&gADD == 0 {
+					goOK = false
+				}
+			})
+		}
+	}
+	spf.Exits(sp, ss(0))
 	if add == nil {
 		r.violated("xsync.Group.spawn|add", sp.Pos(), "spawn does not register the goroutine with the WaitGroup")
 		return
 	}
-	_, locked := held[add]["g.m"]
-	r.ok(locked && isConstInt(add.Call.Args[1], 1), "xsync.Group.spawn|add-under-lock", add.Pos(), "wg.Add(1) must run while holding g.m: otherwise it can take the counter 0→1 while StopAndWait is inside wg.Wait()")
-	// dominated by ctx.Err() == nil evaluated under the lock
-	okErr := false
-	for _, g := range guardsOf(add.Block()) {
-		cf, ok := g.asCmp()
-		if !ok || cf.op != token.EQL || !isNilConst(cf.y) {
-			continue
-		}
-		if ec, ok := cf.x.(*ssa.Call); ok && ec.Call.IsInvoke() && ec.Call.Method.Name() == "Err" && strings.HasSuffix(path(ec.Call.Value), ".ctx") {
-			if _, l := held[ec]["g.m"]; l {
-				okErr = true
-			}
-		}
-	}
-	r.ok(okErr, "xsync.Group.spawn|stopped-check-under-lock", add.Pos(), "the 'already stopped?' test g.ctx.Err() must be evaluated while holding g.m and must dominate wg.Add: checked outside the lock it can pass just before Stop cancels, and the goroutine then starts after StopAndWait returned")
-	// go after Add; goroutine calls f then Done
-	var goIn *ssa.Go
-	instrs(sp, func(b *ssa.BasicBlock, i int, in ssa.Instruction) {
-		if g, ok := in.(*ssa.Go); ok {
-			goIn = g
-		}
-	})
-	okGo := goIn != nil && add.Block().Dominates(goIn.Block())
-	if goIn != nil && !okGo {
-		// same decision, taken twice: the go statement is guarded by the very stopped-check (evaluated under the lock) that guards Add
-		var addErr, goErr ssa.Value
-		for _, g := range guardsOf(add.Block()) {
-			if cf, ok := g.asCmp(); ok && cf.op == token.EQL && isNilConst(cf.y) {
-				if ec, ok := cf.x.(*ssa.Call); ok && ec.Call.IsInvoke() && ec.Call.Method.Name() == "Err" {
-					addErr = ec
-				}
-			}
-		}
-		for _, g := range guardsOf(goIn.Block()) {
-			if cf, ok := g.asCmp(); ok && cf.op == token.EQL && isNilConst(cf.y) {
-				if ec, ok := cf.x.(*ssa.Call); ok && ec.Call.IsInvoke() && ec.Call.Method.Name() == "Err" {
-					goErr = ec
-				}
-			}
-		}
-		okGo = addErr != nil && addErr == goErr
-	}
-	r.ok(okGo, "xsync.Group.spawn|go-after-add", sp.Pos(), "the goroutine must be started only on the path that registered it")
+	r.ok(addOK, "xsync.Group.spawn|add-under-lock", add.Pos(), "wg.Add(1) must run while holding g.m, after g.ctx.Err() was found nil during the same hold: otherwise Add can take the counter 0→1 while StopAndWait is inside wg.Wait(), or a goroutine starts after StopAndWait returned")
+	r.ok(chkOK, "xsync.Group.spawn|stopped-check-under-lock", add.Pos(), "the 'already stopped?' test g.ctx.Err() must be evaluated while holding g.m and must dominate wg.Add: checked outside the lock it can pass just before Stop cancels, and the goroutine then starts after StopAndWait returned")
+	r.ok(goIn != nil && goOK && len(spf.Undecided) == 0, "xsync.Group.spawn|go-after-add", sp.Pos(), "the goroutine must be started only on the path that registered it")
 	if goIn != nil {
 		if clo := staticCallee(&goIn.Call); clo != nil {
 			// every return of the closure is preceded by wg.Done (directly or deferred)
@@ -160,7 +216,7 @@ func ruleGroupSpawn(c *Ctx, r *R) {
 			// Stop inlined: cancel() under the write lock
 			hs := locksIn(sw, lockset{})
 			instrs(sw, func(b *ssa.BasicBlock, i int, in ssa.Instruction) {
-				if call, ok := in.(*ssa.Call); ok && strings.HasSuffix(path(call.Call.Value), ".cancel") && hs[call]["g.m"] == 'W' {
+				if call, ok := in.(*ssa.Call); ok && strings.HasSuffix(path(call.Call.Value), ".cancel") && len(muFields) == 1 && hs[call].heldSuffix(muFields[0], true) {
 					stopIn = call
 				}
 			})
@@ -186,6 +242,25 @@ func groupWorkers(c *Ctx) map[string]*ssa.Function {
 				}
 			}
 		})
+	}
+	// a variant that spawns nothing itself but unconditionally hands its arguments to a sibling (Periodic as a
+	// PeriodicOrTrigger whose trigger is never pulled) is served by the sibling's worker
+	for _, n := range []string{"Periodic", "Trigger", "PeriodicOrTrigger"} {
+		fn := c.fn("xsync.Group." + n)
+		if fn == nil || out[n] != nil || len(fn.Blocks) == 0 {
+			continue
+		}
+		for _, in := range fn.Blocks[0].Instrs {
+			if call, ok := in.(*ssa.Call); ok {
+				if cal := staticCallee(&call.Call); cal != nil && cal != fn {
+					for _, m := range []string{"Periodic", "Trigger", "PeriodicOrTrigger"} {
+						if cal == c.fn("xsync.Group."+m) && out[m] != nil {
+							out[n] = out[m]
+						}
+					}
+				}
+			}
+		}
 	}
 	return out
 }
